@@ -40,7 +40,10 @@ def _host_mws():
         """a host middleware whose repr() raises: the middleware section cannot be computed"""
         def __repr__(self):
             raise RuntimeError('no repr for you')
-    return {'badrepr-mw': lambda: BadReprMiddleware(), 'simplectx': lambda: SimpleContextProcessor(), 'simplectx-named': lambda: SimpleContextProcessor('host_value'),
+    return {'simplectx-sections': lambda: SimpleContextProcessor('sections', 'general', 'title'),
+            # site-wide template data of the host, under names the meta page happens to use for its own working lists
+            'ctxproc-sections': lambda: ContextProcessor(defaults={'sections': ('nav', 'footer'), 'general': None, 'app': None, 'host': 0}),
+            'badrepr-mw': lambda: BadReprMiddleware(), 'simplectx': lambda: SimpleContextProcessor(), 'simplectx-named': lambda: SimpleContextProcessor('host_value'),
             'ctxproc': lambda: ContextProcessor(defaults={'host_default': 1}), 'scriptroot-other': lambda: ScriptRootMiddleware('host_root'),
             'getparam': lambda: GetParamMiddleware(['hq']), 'postdata': lambda: PostDataMiddleware(['hp']),
             'cache': lambda: HTTPCacheMiddleware(), 'profile': lambda: SimpleProfileMiddleware()}
@@ -60,6 +63,15 @@ class ReprHolder(object):
 class BadRepr(object):
     def __repr__(self):
         raise RuntimeError('repr failed')
+
+
+class BadReprQuoting(object):
+    """repr() fails -- and the error text quotes the value (like int(value, 16) on a token does)"""
+    def __init__(self, text):
+        self.text = text
+
+    def __repr__(self):
+        raise ValueError('invalid literal for int() with base 16: %r' % self.text)
 
 
 class BadReprHTTP(object):
@@ -90,6 +102,8 @@ def make_value(kind, marker):
         return BadRepr()
     if kind == 'badrepr-http':
         return BadReprHTTP()
+    if kind == 'badrepr-quoting':
+        return BadReprQuoting(marker)
     raise InvalidPlan('unknown value kind')
 
 
@@ -121,7 +135,7 @@ class C18(Check):
     level_text = ('Single host-call faults are enumerated completely (every call site x every documented exception and unusual '
                   'value, both views) on a fixed host; host applications and multi-fault plans are sampled.')
     level_note = 'Trusted: the catalogue of what each host call can raise/return (sim/core/hoststub.py).'
-    required_probes = ('sibling-section-cannot-be-computed', 'host-shares-middleware-type-with-meta', 'secret-redacted-html', 'secret-redacted-json', 'fault-fired-page-200', 'all-calls-failing', 'depth-2',
+    required_probes = ('secret-resource-with-failing-repr', 'host-context-names-clash-with-meta-working-names', 'sibling-section-cannot-be-computed', 'host-shares-middleware-type-with-meta', 'secret-redacted-html', 'secret-redacted-json', 'fault-fired-page-200', 'all-calls-failing', 'depth-2',
                        'plain-visible', 'bad-repr-section-inline', 'cookie-mw-present')
 
     # ---- generation --------------------------------------------------------
@@ -133,7 +147,10 @@ class C18(Check):
             for n in names[:nmax]:
                 kind = rng.choice(VALUE_KINDS)
                 if n in PLAIN_NAMES and rng.random() < 0.15:
-                    kind = rng.choice(['badrepr', 'badrepr-http'])
+                    kind = rng.choice(['badrepr', 'badrepr-http', 'badrepr-quoting'])
+                elif n in SECRET_NAMES and rng.random() < 0.2:
+                    # a secret whose repr() would fail: nobody has any business calling it
+                    kind = rng.choice(['badrepr', 'badrepr-quoting', 'badrepr-quoting'])
                 out.append({'name': n, 'kind': kind})
             return out
         return {'resources': resources(5), 'inner_resources': resources(3),
@@ -254,6 +271,8 @@ class C18(Check):
                 return res
             if cfg.get('cookie'):
                 res.probe('cookie-mw-present')
+            if set(cfg.get('host_mws', [])) & set(['simplectx-sections', 'ctxproc-sections']):
+                res.probe('host-context-names-clash-with-meta-working-names')
             if set(cfg.get('host_mws', [])) & set(['simplectx', 'simplectx-named']):
                 res.probe('host-shares-middleware-type-with-meta')
             if 'badrepr-mw' in cfg.get('host_mws', []):
@@ -306,7 +325,10 @@ class C18(Check):
     def check_resources(view, body, serving, res):
         if not serving:
             return None
-        has_badrepr = any(kind.startswith('badrepr') for kind, _ in serving.values())
+        # (a secret-named resource is never repr()-ed, so ITS repr failing cannot take the section down)
+        has_badrepr = any(kind.startswith('badrepr') and 'secret' not in name for name, (kind, _) in serving.items())
+        if not has_badrepr and any(kind.startswith('badrepr') and 'secret' in name for name, (kind, _) in serving.items()):
+            res.probe('secret-resource-with-failing-repr')
         if view == 'json':
             try:
                 doc = json.loads(body)
